@@ -36,7 +36,7 @@ ASSUMPTIONS = [
     "async pauses are measured on the virtual clock (loop.time()); sync pauses are the recorded time.sleep calls",
     "wrapped callables have a __name__",
 ]
-MINIMUMS = {"monitor:attempts": 5000, "monitor:pauses": 2000, "monitor:delay-args": 500, "retries_observed": 5000, "monitor:cancel-in-pause": 50, "calls_from_a_task_with_a_swallowed_cancellation": 300, "calls_of_callables_with_another_advertised_signature": 3, "retries_of_callables_failing_without_a_frame_of_their_own": 100}
+MINIMUMS = {"monitor:attempts": 5000, "monitor:pauses": 2000, "monitor:delay-args": 500, "retries_observed": 5000, "monitor:cancel-in-pause": 50, "calls_from_a_task_with_a_swallowed_cancellation": 300, "calls_of_callables_with_another_advertised_signature": 3, "retries_of_callables_failing_without_a_frame_of_their_own": 100, "sequences_raising_the_same_exception_object_again": 200}
 JOBS = {"quick": 4, "thorough": 8}
 LEVEL_TEXT = (
     "The complete product of outcome sequences (up to limit+1 attempts, plus over-call detection), limits 1-4, four caught-set forms, five "
@@ -96,6 +96,11 @@ def sequences(limit: int):  # noqa: ANN201
     yield ("C", "CT", "S")
     yield ("MS", "C") * limit
     yield ("C", "G") * limit
+    # the very same exception object again ("R": what awaiting a shared failed Future / `raise self._error` / a memoised failure gives)
+    yield ("C", *("R",) * limit, "S")
+    yield ("C", "R", "S")
+    yield ("Cs", "R", "C", "R", "S")
+    yield ("C", *("R",) * (limit + 1))
 
 
 def make_outcome(kind: str, i: int) -> tuple[str, Any]:
@@ -175,7 +180,11 @@ def run_case(R: Recorder, case: dict[str, Any], verbose: bool = False) -> None:
     seq, limit, cform, dform, flavour, scoped, deco = case["seq"], case["limit"], case["catching"], case["delay"], case["flavour"], case["scoped"], case["deco"]
     dur = case.get("dur", 0.0)
     cancel_in_pause = case.get("cancel_in_pause")  # index of the pause to cancel in, or None
-    outcomes = [make_outcome(k, i) for i, k in enumerate([*seq, *["S"] * (limit + 3)])]
+    outcomes: list[tuple[str, Any]] = []
+    for i, k in enumerate([*seq, *["S"] * (limit + 3)]):
+        outcomes.append(outcomes[-1] if k == "R" and outcomes else make_outcome("C" if k == "R" else k, i))  # "R": the previous object, raised again
+    if "R" in seq:
+        R.count("sequences_raising_the_same_exception_object_again")
     n_exp, final_exp, pauses_exp, dargs_exp = model(outcomes, limit, cform, dform)
     calls: list[dict[str, Any]] = []
     dargs_log: list[Any] = []
@@ -421,7 +430,7 @@ def cases(tier: str):  # noqa: ANN201
                             yield {"seq": list(seq), "limit": limit, "catching": cform, "delay": dform, "flavour": flavour, "scoped": False, "deco": "args", "dur": 0.5}
                     # cancellation inside each pause (async, positive delay only)
                     if dform in ("int", "float", "func"):
-                        outcomes = [make_outcome(k, i) for i, k in enumerate([*seq, *["S"] * (limit + 3)])]
+                        outcomes = [make_outcome("C" if k == "R" else k, i) for i, k in enumerate([*seq, *["S"] * (limit + 3)])]
                         _, _, pauses, _ = model(outcomes, limit, cform, dform)
                         for p in range(len(pauses)):
                             yield {"seq": list(seq), "limit": limit, "catching": cform, "delay": dform, "flavour": "async", "scoped": p % 2 == 1, "deco": "args", "cancel_in_pause": p}
